@@ -164,6 +164,28 @@ CLAIMED = {
          'TLC proves testcases / status / counters / problem_entry / no_crash on every small feature-after-a-run; real runs of the shared plan (plus injected '
          'raising cleanups and the behave.reporter.junit.* switches) and rendered design cases are parsed and judged by TLC with status classes computed from '
          'the recorded final statuses.'},
+    'C13': {'design_ref': 'DESIGN.md §7 C13',
+ 'note': 'Alphabets split because attribute and cleanup operations touch disjoint state; which error is re-raised at scope end, warnings, and on_cleanup_error '
+         'handlers are not judged.',
+ 'technique': 'TLA+ spec (Context.tla) model-checked with TLC + TLC-judged replays of TLC-generated histories on the real Context; run part on Run.tla',
+ 'text': 'Context.tla models the scope stack as the code implements it (frames with attrs, @cleanups, @layer, the _record/_origin bookkeeping, '
+         '_do_cleanups/_pop, add_cleanup incl. layer=, the four fixture kinds, execute_steps save/restore) next to a reference scope-stack monitor that reads '
+         'observations only; TLC explores all operation histories of the bound over split alphabets (attributes / cleanups+fixtures / reduced) behind every '
+         'prelude of pushed scopes, with one invariant per clause, and emits every history with the predicted observations; each history is replayed on a real '
+         'Context (push/pop as model.py does) probing `in`/getattr for the whole name pool and the cleanup log after every operation, plus seeded random '
+         'histories up to 60 operations; TLC judges visible / shadow / delete_local / scope_end / root_attr / cleanup_once / lifo / despite_errors / layer / '
+         'fixture_cleanup / exec_steps_restore / api_errors. The run part (scopes around every feature/rule/scenario probed at every hook and step, cleanups '
+         'registered by steps at every layer with raising subsets, a raising cleanup fails the owner and the run) is decided on the shared run stage.'},
+    'C15': {'design_ref': 'DESIGN.md §7 C15',
+ 'note': 'Tables/doc-strings/unicode step texts are not generated by the run renderer; auto-retry configurations are excluded (statement silent); the dry-run '
+         'undefined-step family is a known finding.',
+ 'technique': 'TLA+ spec (Consumers.tla) model-checked with TLC + TLC-judged report projections and formatter event streams of real runs',
+ 'text': 'Consumers.tla transcribes the consumer automata (JSONFormatter with _step_index / elements[-1] / finish_current_scenario, plain and progress step '
+         'queues, JsonParser read-back; partial operations = CRASH) fed by the formatter event alphabet of Run.tla; TLC proves grammar / json_mirror / '
+         'json_readback / plain_once / progress_once / agree / no_crash on every generated run shape (backgrounds at both levels, rules, selection, '
+         'show_skipped, dry-run, undefined steps, converter errors); real runs of the shared plan with all report writers on (and subsets/orders of the '
+         'built-in formatters, and runs whose elements are excluded by hooks calling skip()) are projected (JSON tree, read-back model, plain lines, progress '
+         "characters, the recording formatter's stream) and judged by TLC."},
 }
 
 PENDING_REASON = "check not built yet in this round (planned with the same TLA+/TLC technique, see DESIGN.md §7); not claimed until its check exists"
